@@ -1,8 +1,12 @@
-import OmbottModel.Model.Wsgi
+import OmbottModel.Model.WsgiSpec
 import OmbottModel.Lemmas.WsgiCast
+import OmbottModel.Lemmas.WsgiTrace
 /-!
 C03 — Every request gets exactly one well-formed WSGI response.
-Property theorems only; helper lemmas live in `Lemmas/Wsgi*.lean`.
+Property theorems only; helper lemmas live in `Lemmas/Wsgi*.lean`.  All statements are about
+`wsgi` / `exchange` of `Model/Wsgi.lean`, the functions the driver runs (`wsgi serve` lines),
+for **every** application (hooks, custom error handlers), request, handler program of the `Out`
+grammar and every state the reused request/response objects may be in.
 -/
 namespace Ombott.Wsgi
 open Py
@@ -27,5 +31,198 @@ theorem cast_terminates (app : App) (fw : Bool) (s : Slots) (out : Out) :
   · rename_i heq
     rw [heq] at h
     cases h
+
+/-- (a) `start_response` is called exactly once per request, whatever the handler, hooks and
+error handlers do (normal path or catch-all), and it is the last event of the call. -/
+theorem wsgi_one_start_response (app : App) (s : Slots) (r : Req) :
+    ((wsgi app s r).events.filter Event.isStart).length = 1 ∧
+    ((exchange app s r).filter Event.isStart).length = 1 ∧
+    (∃ pre st, (wsgi app s r).events = pre ++ [st] ∧ st.isStart = true) := by
+  have hplain := handle_events_plain app s r
+  have hfilter : ((handle app s r).2.1.filter Event.isStart) = [] := by
+    rw [List.filter_eq_nil_iff]
+    intro e he
+    simp [(hplain e he).1]
+  have hclose : ∀ c, (closeEvents c).filter Event.isStart = [] := by
+    intro c; cases c <;> rfl
+  obtain ⟨c, errs, st, herrs, hst, hev, _⟩ := wsgi_events_shape app s r
+  have herrs' : errs.filter Event.isStart = [] := by
+    rcases herrs with rfl | rfl <;> rfl
+  have key : ((wsgi app s r).events.filter Event.isStart).length = 1 := by
+    rw [hev]
+    simp only [List.filter_append, hfilter, hclose, herrs', List.nil_append]
+    simp [List.filter, hst]
+  refine ⟨key, ?_, ⟨_, st, hev, hst⟩⟩
+  unfold exchange serverEvents
+  simp only [List.filter_append, hclose, List.append_nil]
+  exact key
+
+/-- the only place the table of body-less statuses is used: every 1xx, 204 and 304 is in it -/
+theorem bodyless_complete :
+    ∀ c, c < 1000 → ((100 ≤ c ∧ c < 200) ∨ c = 204 ∨ c = 304) → isBodyless c = true := by
+  decide +kernel
+
+/-- (e) HEAD requests get an empty iterable (normal path and catch-all alike), and a response
+sent by the normal path whose status code is in the body-less table (1xx, 204, 304 by
+`bodyless_complete`) gets an empty iterable. -/
+theorem wsgi_no_body (app : App) (s : Slots) (r : Req) :
+    (r.isHead = true → (wsgi app s r).body = []) ∧
+    (∀ line hdrs, Event.startResponse line hdrs false ∈ (wsgi app s r).events →
+      isBodyless (wsgi app s r).slots.resp.code = true → (wsgi app s r).body = []) := by
+  have hplain := handle_events_plain app s r
+  unfold wsgi
+  rcases hh : handle app s r with ⟨s1, ev1, out⟩
+  rw [hh] at hplain
+  simp only at hplain
+  rcases hc : cast app r.fileWrapper s1 out with ⟨s2, cr⟩
+  have hcrit : ∀ line hdrs (c : Option Nat) (pre : List Event),
+      (∀ e ∈ pre, e.isStart = false) →
+      Event.startResponse line hdrs false ∉ pre ++ closeEvents c ++ [Event.stderr, critStart] := by
+    intro line hdrs c pre hpre hmem
+    simp only [List.mem_append, List.mem_cons, List.not_mem_nil, or_false] at hmem
+    rcases hmem with (h | h) | h | h
+    · have := hpre _ h; simp [Event.isStart] at this
+    · cases c <;> simp [closeEvents] at h
+    · cases h
+    · simp [critStart] at h
+  cases cr with
+  | body items closer fwCL =>
+    simp only [hc]
+    cases hl : headerlist s2.resp with
+    | some l =>
+      simp only
+      constructor
+      · intro hhead; simp only [hhead, Bool.or_true, if_true]
+      · intro line hdrs _ hb; simp only [hb, Bool.true_or, if_true]
+    | none =>
+      simp only
+      constructor
+      · intro hhead; simp only [catchAll, hhead, if_true]
+      · intro line hdrs hmem
+        exfalso
+        refine hcrit line hdrs _ _ ?_ hmem
+        intro e he
+        rcases List.mem_append.mp he with h | h
+        · exact (hplain _ h).1
+        · split at h
+          · cases closer <;> simp [closeEvents] at h
+            subst h; rfl
+          · cases h
+  | raised =>
+    simp only [hc]
+    constructor
+    · intro hhead; simp only [catchAll, hhead, if_true]
+    · intro line hdrs hmem
+      exact absurd hmem (hcrit line hdrs _ _ (fun e he => (hplain e he).1))
+  | diverged =>
+    simp only [hc]
+    constructor
+    · intro hhead; simp only [catchAll, hhead, if_true]
+    · intro line hdrs hmem
+      exact absurd hmem (hcrit line hdrs _ _ (fun e he => (hplain e he).1))
+
+/-- (f) over the whole exchange (the call plus the server's `close()` on the returned object)
+the `close` events are exactly: one `close k` when the iterable `_cast` returned was built over
+handler object `k` that has a `close` method (whether the body is then sent, suppressed for
+HEAD / 1xx / 204 / 304, or replaced by the catch-all page), and none otherwise.  In particular
+no handler object is closed twice and an iterable that produced output is never left open. -/
+theorem wsgi_close_exactly_once (app : App) (s : Slots) (r : Req) :
+    (exchange app s r).filterMap Event.closeId =
+      (match castCloser (cast app r.fileWrapper (handle app s r).1 (handle app s r).2.2).2 with
+       | some k => [k]
+       | none => []) := by
+  have hplain := handle_events_plain app s r
+  have hnone : (handle app s r).2.1.filterMap Event.closeId = [] := by
+    rw [List.filterMap_eq_nil_iff]
+    intro e he
+    exact (hplain e he).2
+  obtain ⟨c, errs, st, herrs, hst, hev, hcl⟩ := wsgi_events_shape app s r
+  have herrs' : errs.filterMap Event.closeId = [] := by
+    rcases herrs with rfl | rfl <;> rfl
+  have hst' : [st].filterMap Event.closeId = [] := by
+    cases st <;> simp [Event.isStart] at hst <;> rfl
+  have hce : ∀ c : Option Nat, (closeEvents c).filterMap Event.closeId =
+      (match c with | some k => [k] | none => []) := by
+    intro c; cases c <;> rfl
+  unfold exchange serverEvents
+  simp only
+  rw [hev]
+  simp only [List.filterMap_append, hnone, herrs', hst', List.nil_append, List.append_nil]
+  rw [← List.filterMap_append, hcl, hce]
+
+/-- where the closer comes from: when the loop body meets an iterable whose first non-empty
+item is a `bytes` / `str` object (its items are what the server will send), the returned
+iterable forwards `close()` to exactly that object if it has a `close` method. -/
+theorem cast_closer_is_body_source (app : App) (fw : Bool) (cnt : Nat) (s : Slots) (id : Nat)
+    (hasClose : Bool) (items : List Item) :
+    (∀ b rest, skipEmpty items = .bytes b :: rest →
+      castOut app fw cnt s (.iter id hasClose items) =
+        .done s (.body (.chunk b :: restBytes rest) (if hasClose then some id else none) none)) ∧
+    (∀ t rest, skipEmpty items = .text t :: rest →
+      castOut app fw cnt s (.iter id hasClose items) =
+        .done s (.body (.chunk (utf8 t) :: restText rest) (if hasClose then some id else none) none)) := by
+  constructor
+  · intro b rest h
+    simp only [castOut, castIter, h]
+  · intro t rest h
+    simp only [castOut, castIter, h]
+
+/-- (h) the hook discipline, as the complete event trace of the call for a decodable path:
+before-hooks once each in registration order up to and including the first failing one; then
+— only if none failed — routing and (if a route was found) the handler; then, whatever
+happened (success, raised response, exception, 404, 405, failed before-hook), the after-hooks
+once each in reverse registration order up to and including the first failing one; then only
+`wsgi.errors` writes, at most one `close` and the `start_response` call. -/
+theorem wsgi_hooks (app : App) (s : Slots) (r : Req) (hp : r.pathOK = true) :
+    ∃ rest,
+      (wsgi app s r).events =
+        (ranUntilFail (enumFrom 0 app.before)).map Event.before ++
+        (if (enumFrom 0 app.before).all (fun p => !p.2.fails) then
+            Event.routed :: (if r.route.isFound then [Event.handler] else []) else []) ++
+        (ranUntilFail (enumFrom 0 app.after).reverse).map Event.after ++ rest ∧
+      (∀ e ∈ rest, e = .stderr ∨ e.isStart = true ∨ e.closeId ≠ none) := by
+  obtain ⟨tail, ht, heq⟩ := handle_trace app s r hp
+  obtain ⟨c, errs, st, herrs, hst, hev, _⟩ := wsgi_events_shape app s r
+  refine ⟨tail ++ closeEvents c ++ errs ++ [st], ?_, ?_⟩
+  · rw [hev, heq]
+    simp only [List.append_assoc]
+  · intro e he
+    simp only [List.mem_append, List.mem_cons, List.not_mem_nil, or_false] at he
+    rcases he with ((h | h) | h) | h
+    · rcases ht with rfl | rfl
+      · cases h
+      · simp only [List.mem_cons, List.not_mem_nil, or_false] at h
+        left; exact h
+    · cases c with
+      | none => cases h
+      | some k =>
+        simp only [closeEvents, List.mem_cons, List.not_mem_nil, or_false] at h
+        subst h; right; right; simp [Event.closeId]
+    · rcases herrs with rfl | rfl
+      · cases h
+      · simp only [List.mem_cons, List.not_mem_nil, or_false] at h
+        left; exact h
+    · subst h; right; left; exact hst
+
+/-- (h), the two readings the property names: if no hook fails, every before-hook runs exactly
+once in registration order before routing, and every after-hook exactly once in reverse order
+after it — for a found route, a 404 and a 405 alike. -/
+theorem wsgi_hooks_all_run (app : App) (s : Slots) (r : Req) (hp : r.pathOK = true)
+    (hb : app.before.all (fun h => !h.fails) = true) (ha : app.after.all (fun h => !h.fails) = true) :
+    ∃ rest,
+      (wsgi app s r).events =
+        (List.range app.before.length).map Event.before ++
+        (Event.routed :: (if r.route.isFound then [Event.handler] else [])) ++
+        ((List.range app.after.length).reverse).map Event.after ++ rest ∧
+      (∀ e ∈ rest, e = .stderr ∨ e.isStart = true ∨ e.closeId ≠ none) := by
+  obtain ⟨rest, heq, hrest⟩ := wsgi_hooks app s r hp
+  refine ⟨rest, ?_, hrest⟩
+  have hb' : (enumFrom 0 app.before).all (fun p => !p.2.fails) = true := by
+    exact (enumFrom_all (fun h : Hook => !h.fails) app.before 0).trans hb
+  have ha' : (enumFrom 0 app.after).reverse.all (fun p => !p.2.fails) = true := by
+    rw [List.all_reverse]
+    exact (enumFrom_all (fun h : Hook => !h.fails) app.after 0).trans ha
+  rw [heq, ranUntilFail_noFail _ hb', ranUntilFail_noFail _ ha', hb']
+  simp only [if_true, List.map_reverse, enumFrom_map_fst, List.range_eq_range']
 
 end Ombott.Wsgi
